@@ -16,8 +16,8 @@ func init() {
 			"not decided: window maintenance across steps (previousPoints overlap reuse), the direction of edge comparisons between two variables, the order in which a kernel combines its operands, additions/subtractions (value-level). R-REFPORT-RANGE compares a decision signature that is invariant under renaming, reordering, helper extraction and if/else inversion; it would report a rewrite that replaces a comparison or an operation by a differently shaped equivalent one",
 		}})
 	property(&Property{ID: "C04", Level: "other",
-		Rules:       []string{"R-ACCRESET", "R-INTCONV", "R-SAMPLE0", "R-ONEPERSTEP", "R-PAIRING", "R-SORTEDNAMES", "R-TABLETS", "R-AGGNAME", "R-SHORTCUT", "R-ACCNONEMPTY", "R-ALLOCSIZE", "R-BATCHIDX", "R-VALIDEVERY", "R-REFPORT-AGG", "R-FILLRANGE", "R-COPYWRITE", "R-SCALAREND", "R-STEPEVERY", "R-REFERRORS"},
-		Scope:       map[string][]string{"R-REFERRORS": {"execution/aggregate"}, "R-STEPEVERY": {"execution/aggregate"}, "R-SCALAREND": {"ggregate"}, "R-COPYWRITE": {"execution/aggregate"}, "R-FILLRANGE": {"execution/aggregate"}, "R-BATCHIDX": {"execution/aggregate"}, "R-PAIRING": {"execution/aggregate", "model.VectorPool"}, "R-SAMPLE0": {"execution/aggregate"}, "R-SHORTCUT": {"execution/aggregate"}, "R-SORTEDNAMES": {"execution/aggregate"}, "R-ONEPERSTEP": {"execution/aggregate"}},
+		Rules:       []string{"R-ACCRESET", "R-INTCONV", "R-SAMPLE0", "R-ONEPERSTEP", "R-PAIRING", "R-SORTEDNAMES", "R-TABLETS", "R-AGGNAME", "R-SHORTCUT", "R-ACCNONEMPTY", "R-ALLOCSIZE", "R-BATCHIDX", "R-VALIDEVERY", "R-REFPORT-AGG", "R-FILLRANGE", "R-COPYWRITE", "R-SCALAREND", "R-STEPEVERY", "R-REFERRORS", "R-NANSORT", "R-SENDEVERY"},
+		Scope:       map[string][]string{"R-SENDEVERY": {"execution/aggregate"}, "R-REFERRORS": {"execution/aggregate"}, "R-STEPEVERY": {"execution/aggregate"}, "R-SCALAREND": {"ggregate"}, "R-COPYWRITE": {"execution/aggregate"}, "R-FILLRANGE": {"execution/aggregate"}, "R-BATCHIDX": {"execution/aggregate"}, "R-PAIRING": {"execution/aggregate", "model.VectorPool"}, "R-SAMPLE0": {"execution/aggregate"}, "R-SHORTCUT": {"execution/aggregate"}, "R-SORTEDNAMES": {"execution/aggregate"}, "R-ONEPERSTEP": {"execution/aggregate"}},
 		Explanation: "Structural necessary conditions of aggregation: every accumulator is completely reset per step (tables are reused for every batch); the k/quantile parameter is NaN/range-tested before it is used as an integer; a parameter absent at a step is not indexed; one step vector per step; IDs and values are written in pairs; the grouping names handed to the label hashes are the sorted slice.",
 		NotDecided: []string{
 			"not decided: the group keys/labels beyond the structural clauses, the reduction values of avg/stddev/stdvar (different algorithms from the reference arm, not compared), tie handling (value-level)",
@@ -30,57 +30,57 @@ func init() {
 			"not decided: which pairs match, the values beyond 'each table entry applies the reference operation to (left, right)', the step at which an ambiguous match is reported (value-level); an operator missing from the operation tables falls back correctly and is covered by C08",
 		}})
 	property(&Property{ID: "C06", Level: "other",
-		Rules:       []string{"R-SENTINEL", "R-POINTFIELDS", "R-PAIRING", "R-ZEROSTEP", "R-SAMPLE0", "R-STEPBOUND", "R-EMPTYSERIES", "R-POINT0", "R-TABLETS", "R-OUTALIAS", "R-HASHSAME", "R-PULLALL", "R-TRUNCDIV", "R-STEPTS", "R-BATCHIDX", "R-REFPORT-INSTANT", "R-OPTABLE", "R-LABELPOS", "R-FILLRANGE", "R-PINNEDPLAN", "R-COPYWRITE", "R-SCALAREND", "R-STEPEVERY"},
-		Scope:       map[string][]string{"R-STEPEVERY": {"execution/function", "step_invariant", "scalarOperator", "numberLiteralSelector"}, "R-SCALAREND": {"scalarOperator"}, "R-COPYWRITE": {"execution/function", "execution/unary", "execution/step_invariant"}, "R-FILLRANGE": {"execution/function"}, "R-BATCHIDX": {"execution/function", "execution/unary", "execution/binary.scalarOperator"}, "R-PAIRING": {"execution/function", "numberLiteralSelector", "step_invariant", "execution/unary", "model.VectorPool"}, "R-SAMPLE0": {"execution/function", "execution/binary.scalarOperator"}, "R-SENTINEL": {"functionOperator", "noArgFunctionOperator"}, "R-STEPTS": {"execution/function", "numberLiteralSelector", "step_invariant", "scalarOperator"}, "R-PULLALL": {"functionOperator", "unaryNegation", "stepInvariantOperator", "scalarOperator"}, "R-STEPBOUND": {"numberLiteralSelector", "noArgFunctionOperator", "stepInvariantOperator"}, "R-EMPTYSERIES": {"functionOperator", "noArgFunctionOperator", "numberLiteralSelector", "histogramOperator", "unaryNegation", "stepInvariantOperator", "scalarOperator"}, "R-ZEROSTEP": {"numberLiteralSelector", "noArgFunctionOperator", "stepInvariantOperator"}, "R-OPTABLE": {"operations["}},
+		Rules:       []string{"R-SENTINEL", "R-POINTFIELDS", "R-PAIRING", "R-ZEROSTEP", "R-SAMPLE0", "R-STEPBOUND", "R-EMPTYSERIES", "R-POINT0", "R-TABLETS", "R-OUTALIAS", "R-HASHSAME", "R-PULLALL", "R-TRUNCDIV", "R-STEPTS", "R-BATCHIDX", "R-REFPORT-INSTANT", "R-OPTABLE", "R-LABELPOS", "R-FILLRANGE", "R-PINNEDPLAN", "R-COPYWRITE", "R-SCALAREND", "R-STEPEVERY", "R-SENDEVERY", "R-PUTONCE", "R-STALEGUARD"},
+		Scope:       map[string][]string{"R-SENDEVERY": {"execution/unary"}, "R-PUTONCE": {"execution/function", "execution/unary", "scalarOperator"}, "R-STEPEVERY": {"execution/function", "step_invariant", "scalarOperator", "numberLiteralSelector"}, "R-SCALAREND": {"scalarOperator"}, "R-COPYWRITE": {"execution/function", "execution/unary", "execution/step_invariant"}, "R-FILLRANGE": {"execution/function"}, "R-BATCHIDX": {"execution/function", "execution/unary", "execution/binary.scalarOperator"}, "R-PAIRING": {"execution/function", "numberLiteralSelector", "step_invariant", "execution/unary", "model.VectorPool"}, "R-SAMPLE0": {"execution/function", "execution/binary.scalarOperator"}, "R-SENTINEL": {"functionOperator", "noArgFunctionOperator"}, "R-STEPTS": {"execution/function", "numberLiteralSelector", "step_invariant", "scalarOperator"}, "R-PULLALL": {"functionOperator", "unaryNegation", "stepInvariantOperator", "scalarOperator"}, "R-STEPBOUND": {"numberLiteralSelector", "noArgFunctionOperator", "stepInvariantOperator"}, "R-EMPTYSERIES": {"functionOperator", "noArgFunctionOperator", "numberLiteralSelector", "histogramOperator", "unaryNegation", "stepInvariantOperator", "scalarOperator"}, "R-ZEROSTEP": {"numberLiteralSelector", "noArgFunctionOperator", "stepInvariantOperator"}, "R-OPTABLE": {"operations["}},
 		Explanation: "Structural necessary conditions of instant functions and scalars: the instant-function call site drops samples its kernel declares absent; every Point field a kernel reads is stored by the call site; IDs/values are written in pairs (time(), scalar()); generator operators cannot stall on a zero step and never emit past the window end; scalar operands are indexed only behind a length test.",
 		NotDecided: []string{
 			"not decided: function values beyond the decision signature (e.g. clamp with a NaN bound: max<min and !(min<=max) have the same signature), alignment of scalar operands whose stream is shorter but not empty, replication of @-pinned vectors (value-level)",
 		}})
 	property(&Property{ID: "C08", Level: "other",
-		Rules:       []string{"R-VOCAB", "R-ERRPROP", "R-NODECOPY"},
+		Rules:       []string{"R-VOCAB", "R-ERRPROP", "R-NODECOPY", "R-VALUESWITCH"},
 		Explanation: "For the complete vocabulary of the pinned parser (every key of parser.Functions, every aggregation and binary operator token, every concrete Expr type, read from the module's source on every run): each item is either handled by a case/table entry of plan construction or reaches a branch that returns an error built from a sentinel of execution/parse; errors created during construction are sentinel-built, propagate unchanged and are checked before results are used; every Expr-typed child of a supported node is planned; unsupported-ness is decided in the construction tree (not in Next/Series); triggerFallback tests every sentinel; the query counter is bumped exactly once with the label of the path taken; the fallback call receives the caller's own arguments.",
 		NotDecided: []string{
 			"not decided: that natively evaluated constructs return the reference's results (C01)",
 			"trusted: the induction over the AST that combines the obligations, the parser's type checking of argument kinds",
 		}})
 	property(&Property{ID: "C09", Level: "other",
-		Rules:       []string{"R-SLOTPTR", "R-LABELFRESH", "R-MATCHEQ", "R-ATOFFSET", "R-NODECOPY", "R-MEMOKEY", "R-MATCHPOS", "R-FILTERALL", "R-MATCHGROW", "R-DROPEXACT"},
+		Rules:       []string{"R-SLOTPTR", "R-LABELFRESH", "R-MATCHEQ", "R-ATOFFSET", "R-NODECOPY", "R-MEMOKEY", "R-MATCHPOS", "R-FILTERALL", "R-MATCHGROW", "R-DROPEXACT", "R-ONFLAG", "R-FOREIGNAPPEND"},
 		Explanation: "Structural necessary conditions of the logical optimizers: every traversal hands out pointers to real slots of the tree, so a replacement (made after in-place edits of the replaced node) lands in the tree in every syntactic position; matcher slices are edited in place only on fresh copies; the subset test that licenses replacing a selector compares name, type and value of the matchers.",
 		NotDecided: []string{
 			"not decided: that the rewrites preserve semantics in general; decided are the clauses whose violation produced the defects found so far: every matcher is applied with the value looked up by name, a selector's matcher list is only grown or taken over whole, deletion by label name is reserved for the metric name, matchers are compared by (name, type, value), no positional access",
 		}})
 	property(&Property{ID: "C10", Level: "other",
-		Rules:       []string{"R-SLOTPTR", "R-DISTTABLE", "R-REMOTELOOKBACK", "R-SHARD", "R-PUSHDOWN", "R-NODECOPY", "R-EXPRORIGIN", "R-CORECOUNT", "R-ONEBATCHSIZE"},
+		Rules:       []string{"R-SLOTPTR", "R-DISTTABLE", "R-REMOTELOOKBACK", "R-SHARD", "R-PUSHDOWN", "R-NODECOPY", "R-EXPRORIGIN", "R-CORECOUNT", "R-ONEBATCHSIZE", "R-VALUESWITCH"},
 		Explanation: "Structural necessary conditions of distributed execution: push-down rewrites land in the tree in every position; only algebraically distributive aggregations are pushed, count is re-aggregated with sum; remote results are read by exact timestamp (no second lookback); the remote reader is a single complete shard; the bottom-up traversal stops (returns true) for every node kind other than the distributive ones it recurses into, so nothing else is pushed down whole.",
 		NotDecided: []string{
 			"not decided: that no selector is left outside a remote execution for every tree shape; commutation with the union for all data (value-level)",
 		}})
 	property(&Property{ID: "C11", Level: "other",
-		Rules:       []string{"R-SHARD", "R-LINEAR", "R-GOSHARED", "R-SHARDCOPY", "R-SLABCAP", "R-PUTORDER", "R-CORECOUNT", "R-POOLLINEAR", "R-CURSORRESET"},
+		Rules:       []string{"R-SHARD", "R-LINEAR", "R-GOSHARED", "R-SHARDCOPY", "R-SLABCAP", "R-PUTORDER", "R-CORECOUNT", "R-POOLLINEAR", "R-CURSORRESET", "R-NANSORT"},
 		Explanation: "Structural necessary conditions of determinism: no shard is lost or duplicated for any shard count; no operator is consumed by two parents; every variable shared with a goroutine is written index-privately, under a mutex that covers all its accesses, or before a channel/WaitGroup hand-off; shard slices handed to operators are private copies of the shared series list.",
 		NotDecided: []string{
 			"not decided: slicing arithmetic, arrival-order dependent tie-breaking, float summation order, NaN ordering (value-/schedule-level)",
 		}})
 	property(&Property{ID: "C12", Level: "other",
-		Rules:       []string{"R-GLOBALS", "R-ENGINEWO", "R-POOLSCOPE", "R-APIFIELDSYNC", "R-GOSHARED", "R-LINEAR", "R-LABELFRESH", "R-SHARDCOPY", "R-PUTORDER", "R-POOLLINEAR"},
+		Rules:       []string{"R-GLOBALS", "R-ENGINEWO", "R-POOLSCOPE", "R-APIFIELDSYNC", "R-GOSHARED", "R-LINEAR", "R-LABELFRESH", "R-SHARDCOPY", "R-PUTORDER", "R-POOLLINEAR", "R-PUTONCE"},
 		Explanation: "Structural necessary conditions of isolation: package-level state and engine fields are never written after construction; pools and select caches are per plan; fields shared between Exec and Cancel/Close are mutex-protected; intra-query shared writes are synchronised; storage-owned label sets and the shared series list are never edited in place.",
 		NotDecided: []string{
 			"not decided: race freedom inside dependencies and the storage; aliasing the rules do not model",
 		}})
 	property(&Property{ID: "C13", Level: "other",
-		Rules:       []string{"R-PANICDOMAIN", "R-WRAP", "R-RECOVERTOTAL", "R-INITBEFOREUSE", "R-INTCONV", "R-SAMPLE0", "R-KERNELBOUNDS", "R-DEFERORDER", "R-POINT0", "R-ACCNONEMPTY", "R-ALLOCSIZE", "R-QUERYCLOSE", "R-BATCHIDX", "R-LOCKDEFER"},
+		Rules:       []string{"R-PANICDOMAIN", "R-WRAP", "R-RECOVERTOTAL", "R-INITBEFOREUSE", "R-INTCONV", "R-SAMPLE0", "R-KERNELBOUNDS", "R-DEFERORDER", "R-POINT0", "R-ACCNONEMPTY", "R-ALLOCSIZE", "R-QUERYCLOSE", "R-BATCHIDX", "R-LOCKDEFER", "R-STALEGUARD"},
 		Explanation: "Structural necessary conditions of crash containment: the API entry and every goroutine that can reach a user-supplied callback is a recovered panic domain; every recovered value is reported; the recovering defer runs before the defer that closes the channel it reports on; no operator state is used before its once-guarded initialiser; run-time floats are tested before integer conversion; scalar operands and windows are indexed behind length tests.",
 		NotDecided: []string{
 			"not decided: fatal runtime errors recover cannot catch (concurrent map writes, stack exhaustion), out-of-memory; panics on worker goroutines caused by defects inside the aggregation tables themselves (no user callback is reachable there)",
 		}})
 	property(&Property{ID: "C14", Level: "other",
-		Rules:       []string{"R-LOSTCANCEL", "R-APIFIELDSYNC", "R-ZEROSTEP", "R-CANCELEARLY", "R-CHANCAP", "R-WORKERCLOSE", "R-CTXDERIVED", "R-QUERYCLOSE", "R-LOCKDEFER", "R-CANCELLOCK"},
+		Rules:       []string{"R-LOSTCANCEL", "R-APIFIELDSYNC", "R-ZEROSTEP", "R-CANCELEARLY", "R-CHANCAP", "R-WORKERCLOSE", "R-CTXDERIVED", "R-QUERYCLOSE", "R-LOCKDEFER", "R-CANCELLOCK", "R-RELEASEFN", "R-DONEPARAM", "R-SENDEVERY"},
 		Explanation: "Structural necessary conditions of cancellation: the per-execution context is cancelled on every return; the cancel function is published to Cancel/Close (under the mutex) before Exec makes its first call into the plan; step cursors terminate on instant queries; every error channel a goroutine sends on without a select has capacity for all its senders, so a sender never blocks after its receiver returned early.",
 		NotDecided: []string{
 			"not decided: 'within bounded time'; storage callbacks that ignore the context; that the context's error rather than a value is returned on the last batch; full deadlock freedom of the worker protocol (R-CHAN of the design was withdrawn, see DESIGN.md)",
 		}})
 	property(&Property{ID: "C15", Level: "other",
-		Rules:       []string{"R-ITERERR", "R-SETERR", "R-ERRPROP", "R-ERRSEND", "R-ERRFIRST", "R-ERRIDENT"},
+		Rules:       []string{"R-ITERERR", "R-SETERR", "R-ERRPROP", "R-ERRSEND", "R-ERRFIRST", "R-ERRIDENT", "R-ERRKEPT"},
 		Explanation: "Structural necessary conditions of error surfacing: a failing iterator/series set is distinguished from an exhausted one at every advance site; an error assigned inside a once/closure is assigned to the variable the enclosing function returns (no shadowing declaration); every error returned by a child operator or helper in execution/... is tested and returned before the other results are used.",
 		NotDecided: []string{
 			"not decided: wrapping fidelity of the final error; the once-guarded loaders do not latch their error (no plan was found in which that yields a successful result)",
@@ -110,7 +110,7 @@ func init() {
 			"not decided: pairwise distinct label sets after name dropping, timestamps on the grid for every operator, overflow/denormal values (value-level)",
 		}})
 	property(&Property{ID: "C20", Level: "other",
-		Rules:       []string{"R-ENGINEWO", "R-GLOBALS", "R-POOLSCOPE", "R-FOREIGNAPPEND", "R-USEAFTERPUT", "R-LABELFRESH", "R-RESULTCOPY", "R-OUTALIAS", "R-PUTORDER", "R-NODECOPY"},
+		Rules:       []string{"R-ENGINEWO", "R-GLOBALS", "R-POOLSCOPE", "R-FOREIGNAPPEND", "R-USEAFTERPUT", "R-LABELFRESH", "R-RESULTCOPY", "R-OUTALIAS", "R-PUTORDER", "R-NODECOPY", "R-RELEASEFN", "R-PUTONCE"},
 		Explanation: "Structural necessary conditions of statelessness: an engine holds nothing a query can write; no kept append onto a caller's or the package's slice; recycled buffers are not read again; storage-owned label sets (which returned results alias) are never edited in place; Exec copies sample values out of pooled step vectors (no pooled slice type is reachable from promql.Result).",
 		NotDecided: []string{
 			"not decided: equality with a fresh engine after data changes (needs running); the storage's own caches",
